@@ -30,6 +30,20 @@ type schemaCase struct {
 	NoFormats bool            `json:"noformats,omitempty"`
 	Expect    *bool           `json:"expect,omitempty"` // verdict labelled by the JSON-Schema-Test-Suite, when known
 	Origin    string          `json:"origin,omitempty"`
+	Typed     *typedVal       `json:"typed,omitempty"` // a typed Go value instead of JSON data
+}
+
+// caseData returns the instance of a case as the Go value handed to the validator, with its model encoding.
+func caseData(c *schemaCase, e *enc) (interface{}, string, error) {
+	if c.Typed != nil {
+		v, sx := c.Typed.build(e)
+		return v, sx, nil
+	}
+	d, err := parseData(c.Data, c.UseNumber)
+	if err != nil {
+		return nil, "", err
+	}
+	return d, e.goval(d, true), nil
 }
 
 type goErr struct {
@@ -197,7 +211,7 @@ func runValidator(c *schemaCase, extra ...validate.Option) (run goRun, res *vali
 	if err != nil {
 		return goRun{Outcome: "undecodable", Errors: []goErr{}}, nil
 	}
-	d, err := parseData(c.Data, c.UseNumber)
+	d, _, err := caseData(c, newEnc())
 	if err != nil {
 		return goRun{Outcome: "undecodable", Errors: []goErr{}}, nil
 	}
@@ -219,7 +233,7 @@ func runOneShot(c *schemaCase) (one goOneShot) {
 	if err != nil {
 		return goOneShot{Outcome: "undecodable", Msgs: []string{}}
 	}
-	d, err := parseData(c.Data, c.UseNumber)
+	d, _, err := caseData(c, newEnc())
 	if err != nil {
 		return goOneShot{Outcome: "undecodable", Msgs: []string{}}
 	}
@@ -262,8 +276,7 @@ func modelInput(c *schemaCase, fuel int) (string, []string, string) {
 	if err != nil {
 		return "", nil, "schema does not decode"
 	}
-	d, err := parseData(c.Data, c.UseNumber)
-	if err != nil {
+	if _, _, err := caseData(c, newEnc()); err != nil {
 		return "", nil, "data does not decode"
 	}
 	if why := unsupportedRefs(c.Schema); why != "" {
@@ -324,7 +337,7 @@ func modelInput(c *schemaCase, fuel int) (string, []string, string) {
 			defs = append(defs, fmt.Sprintf("(%d %s)", e.in.id(r), done[r]))
 		}
 	}
-	dataSx := e.goval(d, true)
+	_, dataSx, _ := caseData(c, e)
 	rootID := e.in.id(c.Root)
 	opts := e.options(c.Swagger, c.Swagger, c.Skip)
 	orc := e.oracles(caseRegistry(c), nil)
